@@ -7,13 +7,13 @@ require (
 	github.com/blevesearch/vellum v1.0.7
 	github.com/blugelabs/bluge_segment_api v0.2.0
 	github.com/blugelabs/ice/v2 v2.0.0
+	github.com/klauspost/compress v1.15.2
 	pgregory.net/rapid v1.3.0
 )
 
 require (
 	github.com/bits-and-blooms/bitset v1.2.0 // indirect
 	github.com/blevesearch/mmap-go v1.0.4 // indirect
-	github.com/klauspost/compress v1.15.2 // indirect
 	golang.org/x/sys v0.0.0-20220520151302-bc2c85ada10a // indirect
 )
 
